@@ -1,6 +1,7 @@
 //! C17: rewrite rules and layered configuration resolve as documented.
 //! Lists of YAML documents -> load_from_yaml -> ConfigSet::select; then CSV records through
 //! import::import under the selected entry and Txn::to_double_entry.
+use crate::c17x;
 use crate::camtgen;
 use crate::coq::{self, Shards, Stats};
 use crate::impgen::*;
@@ -37,7 +38,7 @@ fn component_starts(file: &str) -> Vec<usize> {
     v
 }
 
-fn gen_doc_path(r: &mut Rng, file: &str) -> String {
+pub fn gen_doc_path(r: &mut Rng, file: &str) -> String {
     if r.chance(1, 6) {
         // does not occur in the file path
         return (*r.pick(&["viseca/", "zz", "bank\\okane", "OKANE", "2025"])).to_string();
@@ -77,7 +78,7 @@ fn gen_doc_path(r: &mut Rng, file: &str) -> String {
     file[start..start + len].to_string()
 }
 
-fn gen_small_format(r: &mut Rng) -> Format {
+pub fn gen_small_format(r: &mut Rng) -> Format {
     let mut fields = Vec::new();
     for k in 0..13 {
         if r.chance(1, 4) {
@@ -142,7 +143,7 @@ fn gen_layout(r: &mut Rng) -> (Format, Vec<String>) {
     (Format { date: "%Y-%m-%d".into(), precisions: vec![], fields, delimiter: "".into(), skip: 0, new_to_old: r.chance(1, 4) }, header)
 }
 
-fn gen_rows(r: &mut Rng, layout: &Format) -> Vec<Row> {
+pub fn gen_rows(r: &mut Rng, layout: &Format) -> Vec<Row> {
     let credit_debit = layout.fields.iter().any(|(k, _)| *k == K_CREDIT);
     let n = 1 + r.below(4);
     let mut rows = Vec::new();
@@ -257,8 +258,9 @@ fn repeat_parent_rule(r: &mut Rng, docs: &mut Vec<Doc>, file: &str, rows: &mut [
     rows[k].fields[1] = format!("{} {} {}", recase(r, w2), recase(r, w1), recase(r, w3));
 }
 
-/// how many rules hit a record, following the fold (statistics only)
-fn count_hits(rules: &[config_rule::R], payee0: &str, cat: &str, sym: &str, empty_caps: &mut usize) -> usize {
+/// how many rules hit a record, following the fold (statistics only); `cat_caps`: the captures of
+/// a category match count too (the Viseca adapter keeps them)
+pub fn count_hits(rules: &[config_rule::R], payee0: &str, cat: &str, sym: &str, cat_caps: bool, empty_caps: &mut usize) -> usize {
     let mut payee = payee0.to_string();
     let mut hits = 0;
     for rule in rules {
@@ -277,7 +279,7 @@ fn count_hits(rules: &[config_rule::R], payee0: &str, cat: &str, sym: &str, empt
                 };
                 match re.as_ref().and_then(|re| re.captures(target)) {
                     Some(c) => {
-                        if *f == RF_PAYEE {
+                        if *f == RF_PAYEE || (cat_caps && *f == RF_CATEGORY) {
                             if let Some(m) = c.name("payee") {
                                 cap = Some(m.as_str().to_string());
                             }
@@ -302,11 +304,36 @@ fn count_hits(rules: &[config_rule::R], payee0: &str, cat: &str, sym: &str, empt
     hits
 }
 
-mod config_rule {
+pub mod config_rule {
     pub struct R {
         pub matcher: Vec<Vec<(usize, Option<regex::Regex>)>>,
         pub payee: Option<String>,
     }
+}
+
+/// the rules of a selected entry with their patterns compiled (statistics only)
+pub fn rules_for_stats(e: &okane::import::config::ConfigEntry) -> Vec<config_rule::R> {
+    e.rewrite
+        .iter()
+        .map(|r| {
+            let ands: Vec<&okane::import::config::FieldMatcher> = match &r.matcher {
+                okane::import::config::RewriteMatcher::Or(v) => v.iter().collect(),
+                okane::import::config::RewriteMatcher::Field(f) => vec![f],
+            };
+            config_rule::R {
+                matcher: ands
+                    .iter()
+                    .map(|fm| {
+                        fm.fields
+                            .iter()
+                            .map(|(f, s)| (RFIELDS.iter().position(|x| *x == f.to_string()).unwrap_or(99), regex::RegexBuilder::new(s).case_insensitive(true).build().ok()))
+                            .collect()
+                    })
+                    .collect(),
+                payee: r.payee.clone(),
+            }
+        })
+        .collect()
 }
 
 pub fn emit(sh: &mut Shards, st: &mut Stats, c: &Case17, tag: &str) {
@@ -320,30 +347,9 @@ pub fn emit(sh: &mut Shards, st: &mut Stats, c: &Case17, tag: &str) {
         SelObs::Ok(e) => {
             let mut e2 = e.clone();
             e2.format = c.layout.to_spec();
-            let rules: Vec<config_rule::R> = e2
-                .rewrite
-                .iter()
-                .map(|r| {
-                    let ands: Vec<&okane::import::config::FieldMatcher> = match &r.matcher {
-                        okane::import::config::RewriteMatcher::Or(v) => v.iter().collect(),
-                        okane::import::config::RewriteMatcher::Field(f) => vec![f],
-                    };
-                    config_rule::R {
-                        matcher: ands
-                            .iter()
-                            .map(|fm| {
-                                fm.fields
-                                    .iter()
-                                    .map(|(f, s)| (RFIELDS.iter().position(|x| *x == f.to_string()).unwrap_or(99), regex::RegexBuilder::new(s).case_insensitive(true).build().ok()))
-                                    .collect()
-                            })
-                            .collect(),
-                        payee: r.payee.clone(),
-                    }
-                })
-                .collect();
+            let rules = rules_for_stats(&e2);
             for row in &c.rows {
-                max_hits = max_hits.max(count_hits(&rules, &row.fields[1], &row.fields[2], &row.fields[3], &mut empty_caps));
+                max_hits = max_hits.max(count_hits(&rules, &row.fields[1], &row.fields[2], &row.fields[3], false, &mut empty_caps));
             }
             run_import(&csv, &e2)
         }
@@ -786,7 +792,15 @@ pub fn emit_camt(sh: &mut Shards, st: &mut Stats, c: &Case17Camt, tag: &str) {
 
 pub const HEADER: &str = "From Coq Require Import List NArith ZArith QArith Qcanon.\nFrom Okv Require Import Base.Dec Model.ImpConfig Model.ImpExtract Model.ImpSingleEntry Model.ImpCsv Model.ImpCamtMatch Run.ImpPattern Run.ImpCase";
 
-fn corpus_cases(o: &Opts) -> (Vec<Case17>, Vec<Case17Camt>, bool) {
+pub struct Corpus {
+    pub csv: Vec<Case17>,
+    pub camt: Vec<Case17Camt>,
+    pub vis: Vec<c17x::Case17Vis>,
+    pub cmd: Vec<c17x::Case17Cmd>,
+    pub replay: bool,
+}
+
+fn corpus_cases(o: &Opts) -> Corpus {
     let mut files: Vec<std::path::PathBuf> = Vec::new();
     let mut replay = false;
     if let Some(i) = o.extra.iter().position(|a| a == "--replay") {
@@ -798,40 +812,65 @@ fn corpus_cases(o: &Opts) -> (Vec<Case17>, Vec<Case17Camt>, bool) {
         files = rd.filter_map(|e| e.ok()).map(|e| e.path()).collect();
         files.sort();
     }
-    let mut out = Vec::new();
-    let mut camt = Vec::new();
+    let mut c = Corpus { csv: Vec::new(), camt: Vec::new(), vis: Vec::new(), cmd: Vec::new(), replay };
     for p in files {
         if let Ok(t) = std::fs::read_to_string(&p) {
             if let Ok(v) = serde_json::from_str::<serde_json::Value>(&t) {
-                if let Some(c) = v.get("case") {
-                    if let Ok(c) = serde_json::from_value::<Case17>(c.clone()) {
-                        out.push(c);
+                if let Some(x) = v.get("case") {
+                    if let Ok(x) = serde_json::from_value::<Case17>(x.clone()) {
+                        c.csv.push(x);
                     }
                 }
-                if let Some(c) = v.get("camt_case") {
-                    if let Ok(c) = serde_json::from_value::<Case17Camt>(c.clone()) {
-                        camt.push(c);
+                if let Some(x) = v.get("camt_case") {
+                    if let Ok(x) = serde_json::from_value::<Case17Camt>(x.clone()) {
+                        c.camt.push(x);
+                    }
+                }
+                if let Some(x) = v.get("vis_case") {
+                    if let Ok(x) = serde_json::from_value::<c17x::Case17Vis>(x.clone()) {
+                        c.vis.push(x);
+                    }
+                }
+                if let Some(x) = v.get("cmd_case") {
+                    if let Ok(x) = serde_json::from_value::<c17x::Case17Cmd>(x.clone()) {
+                        c.cmd.push(x);
                     }
                 }
             }
         }
     }
-    (out, camt, replay)
+    c
 }
 
 pub fn run(o: &Opts) {
     let mut st = Stats::new();
     let mut sh = Shards::new(&o.out, if o.thorough { o.shards * 6 } else { o.shards }, &format!("{} Run.Classify_C17.\nImport ListNotations.\nOpen Scope N_scope.", HEADER));
-    st.rule = "1-4 YAML documents (random subsets of encoding/account/account_type/operator/commodity/format, 0-4 rewrite rules each with single/OR-list matchers over payee/category/secondary_commodity, capture groups including ones that match the empty string on a record (`Lit(?P<payee>.*)`, `(?P<code>\\d*)`) followed by rules that tell the emptied payee from the original, payee/account/pending/conversion settings; paths drawn as substrings of the file path with frequent equal lengths, as directory prefixes with a trailing '/' where the file path continues the name with other characters (bank/ against bankcard/, bank.old/) or not, and as ./x, x//y, x/./y shapes) through load_from_yaml and ConfigSet::select; then 1-4 CSV records through import::import(Csv) under the selected entry (its `format` replaced by the harness's column layout) and Txn::to_double_entry; one case in five has two layered documents (paths of different length, in either file order) where the longer-path document repeats a rule of the shorter-path one verbatim (now and then with one flag changed) at a later position, after a rule that rewrites the payee, and a record `w2 w1 w3` for which the second occurrence decides the account; plus (a third of the run) Camt053 records: statements of 1-3 entries without TxDtls or with 1-2 TxDtls carrying creditor / ultimate creditor / debtor / ultimate debtor names (inline or inside Pty), account ids (IBAN or Othr), remittance information, AddtlTxInf and AddtlNtryInf, AcctSvcrRef present or not, and 1-2 layered documents with 1-8 rules aimed at the records: single matchers and OR-lists of 1-3 AND elements over 1-3 of those fields and the accumulated payee, the fields written in random order, patterns that match or miss with (?P<payee>...) / (?P<code>...) groups in several fields of one element, two fifths of the rules built as `an element that captures in a field early in RewriteField order and then fails on a later field, followed by an element that matches`, follow-up rules on the payee, now and then a matcher the Camt053 importer refuses; through import::import(IsoCamt053) under the selected entry and to_double_entry, payee / code / counter account / pending mark of every transaction compared with the rule hits and with the model; non-trivial = at least two documents match the path, or at least two rules hit one record (Camt053: the import succeeded and some rule has an OR-list or a multi-field element); distinct by YAML + path + CSV / XML".into();
+    st.rule = RULE.into();
     st.assumptions.push("matcher patterns come from a small language (literal / [0-9]+ / \\d* / .* atoms, optional ^ $, named groups payee and code) for which leftmost-first backtracking in the model is what the regex crate computes; text is UTF-8 without line breaks".into());
     st.assumptions.push("Camt053 rule lists do not use the bank-transaction-code matchers (domain_code, domain_family, domain_sub_family); statement texts have no outer white space (quick-xml trims) and every amount is non-zero".into());
     st.assumptions.push("file paths are valid Unicode and use '/' (on this platform PathBufExt::from_slash is the identity)".into());
-    let (corpus, corpus_camt, replay) = corpus_cases(o);
-    for c in &corpus {
+    st.assumptions.push("Viseca statements: the text parser (viseca/parser.rs FIRST_LINE and the category / exchange-rate / fee / Air- lines) is an oracle - the model starts from the payee and category texts the statement was written from; every document that names a commodity names CHF, the currency the statement text is written for; a payee written without a spent amount does not end in `[A-Z]{3} <number>` (FIRST_LINE would read that as a spent amount), category lines do not begin with a digit, amounts are non-zero".into());
+    st.assumptions.push("command leg: the printed ledger is read back with okane's own parse_ledger (texts are words, numbers and spaces: none of the C15 known classes); the statement files are UTF-8 and every document that sets an encoding sets UTF-8; amounts are non-zero (the sign bit of a zero decides the posting order and is not recoverable from the printed text; zero cells are exercised by the in-process CSV cases)".into());
+    let corpus = corpus_cases(o);
+    let replay = corpus.replay;
+    for c in &corpus.csv {
         emit(&mut sh, &mut st, c, "corpus");
     }
-    for c in &corpus_camt {
+    for c in &corpus.camt {
         emit_camt(&mut sh, &mut st, c, "corpus");
+    }
+    for c in &corpus.vis {
+        c17x::emit_vis(&mut sh, &mut st, c, "corpus");
+    }
+    let bin = std::env::var("OKV_OKANE_BIN").ok().filter(|b| std::path::Path::new(b).exists());
+    let scratch = c17x::CmdScratch::new();
+    match &bin {
+        Some(bin) => {
+            for c in &corpus.cmd {
+                c17x::emit_cmd(&mut sh, &mut st, c, "corpus", bin, &scratch);
+            }
+        }
+        None => st.assumptions.push("OKV_OKANE_BIN not set: the command leg did not run".to_string()),
     }
     if !replay {
         let mut r = Rng::new(o.seed, 1701);
@@ -846,6 +885,24 @@ pub fn run(o: &Opts) {
             let c = gen_camt_case(&mut r);
             emit_camt(&mut sh, &mut st, &c, "random");
         }
+        let mut r = Rng::new(o.seed, 1703);
+        let n = if o.thorough { 4000 } else { 500 };
+        for _ in 0..n {
+            let c = c17x::gen_vis_case(&mut r);
+            c17x::emit_vis(&mut sh, &mut st, &c, "random");
+        }
+        if let Some(bin) = &bin {
+            let mut r = Rng::new(o.seed, 1704);
+            let n = if o.thorough { 2400 } else { 260 };
+            let root = scratch.root_str();
+            for _ in 0..n {
+                let c = c17x::gen_cmd_case(&mut r, &root);
+                c17x::emit_cmd(&mut sh, &mut st, &c, "random", bin, &scratch);
+            }
+        }
     }
+    drop(scratch);
     sh.finish(&st);
 }
+
+const RULE: &str = "1-4 YAML documents (random subsets of encoding/account/account_type/operator/commodity/format, 0-4 rewrite rules each with single/OR-list matchers over payee/category/secondary_commodity, capture groups including ones that match the empty string on a record (`Lit(?P<payee>.*)`, `(?P<code>\\d*)`) followed by rules that tell the emptied payee from the original, payee/account/pending/conversion settings; paths drawn as substrings of the file path with frequent equal lengths, as directory prefixes with a trailing '/' where the file path continues the name with other characters (bank/ against bankcard/, bank.old/) or not, and as ./x, x//y, x/./y shapes) through load_from_yaml and ConfigSet::select; then 1-4 CSV records through import::import(Csv) under the selected entry (its `format` replaced by the harness's column layout) and Txn::to_double_entry; one case in five has two layered documents (paths of different length, in either file order) where the longer-path document repeats a rule of the shorter-path one verbatim (now and then with one flag changed) at a later position, after a rule that rewrites the payee, and a record `w2 w1 w3` for which the second occurrence decides the account; plus (a third of the run) Camt053 records: statements of 1-3 entries without TxDtls or with 1-2 TxDtls carrying creditor / ultimate creditor / debtor / ultimate debtor names (inline or inside Pty), account ids (IBAN or Othr), remittance information, AddtlTxInf and AddtlNtryInf, AcctSvcrRef present or not, and 1-2 layered documents with 1-8 rules aimed at the records: single matchers and OR-lists of 1-3 AND elements over 1-3 of those fields and the accumulated payee, the fields written in random order, patterns that match or miss with (?P<payee>...) / (?P<code>...) groups in several fields of one element, two fifths of the rules built as `an element that captures in a field early in RewriteField order and then fails on a later field, followed by an element that matches`, follow-up rules on the payee, now and then a matcher the Camt053 importer refuses; through import::import(IsoCamt053) under the selected entry and to_double_entry, payee / code / counter account / pending mark of every transaction compared with the rule hits and with the model; non-trivial = at least two documents match the path, or at least two rules hit one record (Camt053: the import succeeded and some rule has an OR-list or a multi-field element); distinct by YAML + path + CSV / XML; plus (500 quick / 4000 thorough) Viseca records: statement text of 1-4 records (first line only; with a category line; with a spent amount in CHF / EUR / USD, exchange-rate line, processing-fee line, Air- lines; a fifth ending in ` -`; apostrophe-grouped amounts) and 1-3 layered documents (paths as for CSV over .txt file paths, operator now and then missing) with 0-4 rules each over payee and category - category patterns with (?P<payee>..) / (?P<code>..) groups, which the Viseca adapter keeps, and one that matches the empty category of a record without a category line; now and then a field the adapter refuses - half of the cases with `a rule that rewrites the payee of one record (strips the first word, keeps the last or the first word, or a payee: setting) followed, not always directly, by a rule that matches exactly one of the rewritten payee and the statement's payee`, a sixth with a named group matching the empty string; through load_from_yaml, ConfigSet::select, import::import(Viseca) and to_double_entry; payee / code / counter account / pending mark compared with the rule hits and with the model (Model/ImpVisecaMatch.v); plus (260 quick / 2400 thorough) runs of the built binary `okane import --config CFG SOURCE` in a fresh process (10 s limit) inside a scratch tree the harness builds and removes: CSV (three quarters) or Viseca statement, 2-4 layered documents with different accounts / account types / commodities / column layouts / rules; SOURCE relative to a current directory one or two levels down (`statements/bank.csv` from inside `archive/`), relative with `./`, `x/../`, `sub/../sub`, `../cwd/` or a doubled separator, absolute, relative or absolute through a directory that is a symbolic link into `vault/<name>/`, or itself a symbolic link to a file of another name; directory and link-target names are drawn from the same words as the components of SOURCE and half of the non-base documents take their path from the directories ABOVE the source (component-aligned pieces of the real location, now and then of the scratch directory); the printed ledger is read back with parse_ledger and must be what the rules of the declarative merge for the string AS GIVEN produce (every document whose path occurs in that string, shortest first), `config matching ... not found` and the invalid-config errors likewise; non-trivial (command) = some document's path occurs in only one of the given string and the resolved location";
